@@ -727,6 +727,12 @@ class Task:
             if parent in self.all_children:
                 raise RuntimeError(f"Task {parent.id} is a child of task {self.id}. Can't make child "
                                    f"a parent of its parent")
+            new_parents = [parent] + [p for p in parent.all_parents]
+            for t in [self] + [ch for ch in self.all_children]:
+                for p in new_parents:
+                    if p in t.__predecessors or p in t.__successors:
+                        raise RuntimeError(f"Task {p.id} is a predecessor or successor of task {t.id}. "
+                                           f"Can't make it a parent of this task")
 
         if self.__parent is not None and self in self.__parent.__children:
             self.__parent.__children.remove(self)
